@@ -30,7 +30,7 @@ func init() {
 			"a node that does not come back from a crash image (or refuses the missing block) is C13's subject: the run restores it from the replica's disk and goes on, counted in probe restart-failed",
 			"sender recovery uses the implementation's From() (independence of signature recovery is C08's subject)",
 		},
-		QuickRuns: 3500, QuickBudget: 55 * time.Second, ThoroughRuns: 30000, ThoroughBudget: 15 * time.Minute,
+		QuickRuns: 3500, QuickBudget: 50 * time.Second, ThoroughRuns: 30000, ThoroughBudget: 15 * time.Minute,
 		RunsPerProcess: 60, RunTimeout: 90 * time.Second,
 		Run: run,
 	})
